@@ -8,6 +8,7 @@ import (
 	"fmt"
 	"math/rand"
 	"strings"
+	"sync"
 )
 
 type inst struct {
@@ -173,12 +174,20 @@ func validPlusCal(sp *Program) error {
 				return walk(t.Else)
 			case "call":
 				implicit = varsOf(t.P)
-			case "ret":
-				implicit = varsOf(scope)
-			case "tail":
-				implicit = varsOf(t.P)
-				for v := range varsOf(scope) {
-					implicit[v] = true
+				if t.P == scope { // pcal treats a call of the enclosing procedure like a return (coarse rule below)
+					for i := range sp.Procs {
+						for _, v := range sp.Procs[i].stateVars() {
+							implicit[v] = true
+						}
+					}
+				}
+			case "ret", "tail":
+				// pcal is coarse here: a return (also the one of `call; return`) needs a label of its own as soon as
+				// the step has assigned a parameter or local of ANY procedure
+				for i := range sp.Procs {
+					for _, v := range sp.Procs[i].stateVars() {
+						implicit[v] = true
+					}
 				}
 			}
 			for c := range w {
@@ -289,14 +298,21 @@ func drawValidProgram(rng *rand.Rand, rejected map[string]int) (*Program, progra
 // ----------------------------------------------------------------------------------------------------------
 // shrinking: greedy removal of faults, assignments, call sites and fuel while the same key is still produced
 
-func firstViolation(p *Program) *violation {
-	res := runProgram(p, func(v *violation) bool { return false })
+// knownKeys: keys that matched an open known finding during this run (learned from Report's answer).
+var knownKeys sync.Map
+
+// firstViolation runs p and returns the first violation that is not a known finding other than `target`.
+func firstViolation(p *Program, target string) *violation {
+	res := runProgram(p, func(v *violation) bool {
+		_, known := knownKeys.Load(v.key())
+		return known && v.key() != target
+	})
 	return res.Viol
 }
 
 func shrink(p *Program, key string) (*Program, *violation) {
 	cur := p.Clone()
-	curV := firstViolation(cur)
+	curV := firstViolation(cur, key)
 	if curV == nil || curV.key() != key {
 		return nil, nil // not the first violation of the run (e.g. seen after a resynchronisation): keep the original
 	}
@@ -309,7 +325,7 @@ func shrink(p *Program, key string) (*Program, *violation) {
 		if _, _, err := vet(cand); err != nil {
 			return false
 		}
-		v := firstViolation(cand)
+		v := firstViolation(cand, key)
 		if v != nil && v.key() == key {
 			cur, curV = cand, v
 			return true
